@@ -1,6 +1,7 @@
 """C18 — visible line parts partition the data exactly
 (mptplot/values/linepart_{linear,code,join}.c, mpt++/linepart.cpp, mpt++/polyline.cpp).
-Case kinds: L/E/J/C (line parts, see harness/c18_linepart.cpp) and P/R/A/W (polyline::set, array::set(-1), apply_data, float wrappers)."""
+Case kinds: L/E/J/C (line parts, see harness/c18_linepart.cpp) and P/R/A/D/W (polyline::set, array::set(-1), apply_data without and
+with part records, float wrappers)."""
 import itertools, multiprocessing, os
 from fractions import Fraction
 import vcheck
@@ -211,6 +212,8 @@ def compare_case(args):
         return compare_represet(case, it, mt, st)
     if kind == "A":
         return compare_plain(case, it, mt, st)
+    if kind == "D":
+        return compare_dparts(case, it, mt, st)
     small = case_small(case)
     if kind == "L":
         c, s = compare_seq(" ".join(it), " ".join(mt), " ".join(st), small, " ", " | ")
@@ -272,6 +275,7 @@ def same_code_tok(a, b):
 
 
 # ------------------------------------------------------------------ open defects: constant switches
+# (seven patches of the first round are committed in /repo: their switches are True; the two new ones are proposed)
 # Each switch names a proposed patch under /verif/docs.  False = the patch is NOT in /repo: the generator leaves out
 # the cases that run into the defect (they are replayable: docs/C18_replay_*.json show VIOLATION on the unpatched
 # tree).  Set a switch to True once the patch is committed; nothing else has to change (the Coq model already
@@ -284,6 +288,10 @@ PATCHED_NO_FIRST_STORE = True       # docs/C18_polyline_no_first_store.diff  pol
 PATCHED_APPLY_DATA_NOPARTS = True   # docs/C18_apply_data_noparts.diff   apply_data without parts: several dimensions and > 65535 points or unequal lengths
 PATCHED_APPLY_SHORT_PART = True     # docs/C18_apply_short_part.diff     (mptplot/values.h) a part with raw = 1 that draws 2 points: its points are
                                      #                                    not compared in GENERATED cases while False (always compared in replays)
+PATCHED_MAXSIZE = True             # docs/C18_maxsize_all_stores.diff   (mpt++/value_store.cpp) maxsize() looks at the first store only: calls whose
+                                     #                                    longest store of doubles is not the first one (or whose first has none)
+PATCHED_APPLY_DATA_REMAINING = True # docs/C18_apply_data_remaining.diff (mpt++/polyline.cpp) apply_data with part records: a record that reaches
+                                     #                                    behind the values a dimension has left (D cases)
 STRICT = False                       # set while a replay file is run: no masking at all
 
 
@@ -341,6 +349,22 @@ def has_in_out(d):
     return False
 
 
+def maxsize_patched(fr):
+    """maxsize() as the name says: the number of values of the longest store of doubles at ANY position, -1 without one"""
+    c = [count_points(d[3]) for d in fr if d[0] == "D"]
+    return max(c) if c else -1
+
+
+def maxsize_first(fr):
+    """maxsize() of the unpatched code: the first store is tested size() times"""
+    return count_points(fr[0][3]) if fr and fr[0][0] == "D" else -1
+
+
+def maxsize_differs(fr):
+    a, b = maxsize_first(fr), maxsize_patched(fr)
+    return a != b and (a > 0 or b > 0)
+
+
 def frame_static(fr):
     """(needs merge patch, unequal lengths, unusable store behind the first and before a usable one, first store unusable,
         any range)"""
@@ -370,6 +394,7 @@ def poly_static(case):
             "merge": any(x[0] for x in st), "uneq": any(x[1] for x in st), "skip": any(x[2] for x in st),
             "used-nofirst": any(x[3] for x in st[1:]),
             "nofirst-then-usable": any(x[5] for x in st),
+            "maxsize": any(maxsize_differs(fr) for fr in frs),
             # set() again keeps old cut/trim fractions: harmless only while no earlier frame had a range
             "stale": any(x[4] for x in st[:-1])}
 
@@ -390,6 +415,8 @@ def poly_enabled(case):
             return False
         if f["nofirst-then-usable"] and PATCHED_SKIP_STORE and not PATCHED_NO_FIRST_STORE:
             return False        # skip_store alone lets such a call draw from set(-1); commit no_first_store with it
+        if f["maxsize"] and not PATCHED_MAXSIZE:
+            return False        # the longest store of doubles is not the first store
     elif k == "R":
         if not poly_enabled("P" + case[1:]):
             return False
@@ -401,7 +428,30 @@ def poly_enabled(case):
         lens = [count_points(d[3]) for d in fr if d[0] == "D" and d[3]]
         if len(lens) > 1 and (int(t[1]) > 65535 or len(set(lens + [int(t[1])])) > 1) and not PATCHED_APPLY_DATA_NOPARTS:
             return False
+    elif k == "D":
+        if dparts_behind(case) and not PATCHED_APPLY_DATA_REMAINING:
+            return False        # a record that draws a point some dimension has no value for
     return True
+
+
+def parse_dparts(case):
+    """'D r.u.c.t ... : <dim> | <dim>' -> (parts, dims)"""
+    t = case.split()
+    k = t.index(":") if ":" in t else len(t)
+    parts = [tuple(int(y) for y in x.split(".")) for x in t[1:k]]
+    dims = [parse_dim(d) for d in split_on(t[k + 1:], "|") if d]
+    return parts, dims
+
+
+def dparts_behind(case):
+    parts, dims = parse_dparts(case)
+    lens = [count_points(d[3]) for d in dims[:3] if usable(d)]
+    pos = 0
+    for raw, usr, cut, trim in parts:
+        if usr and any(pos + usr > n for n in lens):
+            return True
+        pos += raw
+    return False
 
 
 def q_of(txt):
@@ -497,10 +547,11 @@ def check_frame(fr, stoks, itoks, before):
     if len(itoks) < 4 or "F" in itoks[:4]:
         return "crash-or-missing-output:" + ",".join(itoks[:4])[:60]
     ok, ptok, vtok, ittok = itoks[:4]
-    if not fr or not usable(fr[0]):
-        # the first store decides how many points there are: without values the call fails and changes nothing
+    want_n = maxsize_patched(fr)
+    if want_n <= 0:
+        # no store of doubles has a value: nothing to split, the call fails and changes nothing
         if ok != "set=0":
-            return "set-succeeds-without-values-in-the-first-store"
+            return "set-succeeds-without-values-in-any-store"
         if [ptok, vtok, ittok] != before:
             return "failed-set-changed-the-polyline"
         return None
@@ -517,10 +568,10 @@ def check_frame(fr, stoks, itoks, before):
         if d[0] == "D" and d[3] and k < len(stoks):
             cl, xs = dim_spec(stoks[k], d)
             dims.append((k, expand(d[3]), cl, xs))
-    lens = [len(d[1]) for d in dims]
-    n = lens[0]
-    if total not in (n, max(lens)):
-        return "covered=%d-of-%d-points" % (total, n)
+    # every input point of every store is consumed exactly once: the parts cover as many points as the LONGEST store
+    # of doubles has values (a point behind the end of a dimension is consumed and not drawn, see cls)
+    if total != want_n:
+        return "covered=%d-of-%d-points-of-the-longest-store" % (total, want_n)
     n = total
     if sum(p[0] for p in parts) != total or lr != total:
         return "sum-of-raw-differs-from-reported-total"
@@ -745,6 +796,57 @@ def compare_plain(case, it, mt, st):
     return r
 
 
+def compare_dparts(case, it, mt, st):
+    """D: apply_data with the part records of the case on sum(usr) points that start at (0,0).  Read from the property:
+    drawn point j of a record at data position pos is point pos+j of every dimension; a dimension that has a value for it
+    adds that value (the clipped value for a first/last point with a fraction, which needs the neighbour's value too);
+    a dimension that has no value for it adds nothing - and nothing behind a store is read (a crash is token F)"""
+    r = {"corr": None, "spec": None, "I": it, "M": mt, "S": st}
+    parts, fr = parse_dparts(case)
+    for j in range(max(len(it), len(mt))):
+        x = it[j] if j < len(it) else "<none>"
+        y = mt[j] if j < len(mt) else "<none>"
+        if x != y and not (j == 1 and points_equal(x, y, set())):
+            r["corr"] = (j, x[:300], y[:300])
+            break
+    dims = [(k, expand(d[3])) for k, d in enumerate(fr[:3]) if usable(d)]
+    want = []
+    pos = 0
+    for raw, usr, cut, trim in parts:
+        for j in range(usr):
+            i = pos + j
+            x = y = Fraction(0)
+            for dk, vals in dims:
+                n = len(vals)
+                if i >= n:
+                    continue
+                v = vals[i]
+                if j == 0 and cut:
+                    if usr < 2 or i + 1 >= n:
+                        continue
+                    v = vals[i] + Fraction(cut, 65536) * (vals[i + 1] - vals[i])
+                elif j == usr - 1 and trim and usr >= 2:
+                    v = vals[i] + Fraction(trim, 65536) * (vals[i - 1] - vals[i])
+                if dk in (0, 2):
+                    x += v
+                if dk in (1, 2):
+                    y += v
+            want.append((x, y))
+        pos += raw
+    runs = parse_points(it[1]) if len(it) > 1 else None
+    if len(it) < 2 or "F" in it[:2] or it[0] != "proc=%d" % len(dims) or runs is None or runs_to_list(runs) != want:
+        got = runs_to_list(runs) if runs else []
+        bad = next((i for i in range(min(len(got), len(want))) if got[i] != want[i]), -1)
+        r["spec"] = (0, "apply_data:%s,first-wrong-point=%d%s|%s" % (it[0] if it else "<none>", bad,
+                                                                     ("=" + fmt_pt(got[bad]) + "-want-" + fmt_pt(want[bad])) if bad >= 0 else "",
+                                                                     ",".join(it)[:200]),
+                     "proc=%d;every-drawn-point-gets-the-value-of-every-dimension-that-has-one;no-read-behind-a-store" % len(dims))
+    for k in ("I", "M", "S"):
+        if r[k] and sum(len(x) for x in r[k]) > 4000:
+            r[k] = [x[:200] for x in r[k][:8]]
+    return r
+
+
 def same_wrap_tok(a, b):
     """'<ok>.<cut>.<ok>.<trim>:<x>:<y>' equal with the two reals compared as numbers"""
     pa, pb = a.split(":"), b.split(":")
@@ -790,36 +892,49 @@ class C18(DiffProperty):
             "the unused capacity behind every store is ASan-poisoned); observed per frame: the result, the part records + the library's "
             "length_user/length_raw, the point array (every coordinate, run-length coded) and what the part iterator yields "
             "(begin/end/++/*/line()/points() as offset+length, and the end iterator).  'R' = P followed by linepart::array::set(-1); "
-            "'A n ..' = apply_data() without part records; 'W' = linepart::set_cut/set_trim/cut()/trim() on values exact in binary32.  "
+            "'A n ..' = apply_data() without part records; 'D r.u.c.t .. : dims' = apply_data() WITH the part records of the case (exact-size "
+            "copy; the records need not fit the stores) on sum(usr) points that start at (0,0); "
+            "'W' = linepart::set_cut/set_trim/cut()/trim() on values exact in binary32.  "
             "All polyline values lie on the small dyadic grid, so every coordinate must be EQUAL to the model's exact rational.  "
             "Property-level reading of a frame (python check_frame): a point is in range when it is in range in EVERY usable dimension, "
-            "never to be drawn when some dimension has no value for it or has it and both neighbours outside; sum raw = n = values of "
-            "the first store (or of the longest); every raw >= 1; in-range points drawn exactly once, never-points not at all; an "
+            "never to be drawn when some dimension has no value for it or has it and both neighbours outside; sum raw = n = the number of "
+            "values of the LONGEST store of doubles, whatever its position ('consumes every input point exactly once' read for every "
+            "dimension: a value no part covers is not consumed; the usable dimensions are the stores of doubles with >= 1 value among the "
+            "first three); every raw >= 1; in-range points drawn exactly once, never-points not at all; an "
             "out-of-range point only as first/last point of a part, and then in every dimension in which it is outside its neighbour in "
             "the part is inside and cut/trim = the largest code of these crossings; parts that draw nothing carry no fractions; "
             "number of points = sum usr = length_user; every point = the data value (sum over the dimensions that feed the axis), a "
             "clipped end = the point at fraction code/65536 of its segment; the iterator's lines tile the points in part order and "
-            "points() is the line without clipped ends (no size_t underflow); a first store without doubles makes the call fail "
-            "and leaves the polyline unchanged.  Generated: exhaustive five-class sequences to length 5 (quick) / 7 for one dimension, "
+            "points() is the line without clipped ends (no size_t underflow); when no store of doubles has a value the call fails "
+            "and leaves the polyline unchanged.  Reading of a D case (python compare_dparts): drawn point j of a record at data "
+            "position pos is point pos+j of every dimension; a dimension that has a value for it adds that value (the clipped value "
+            "for a first/last point with a fraction when the neighbour's value exists too), a dimension without a value for it adds "
+            "nothing, nothing behind a store is read (crash = token F); records are well formed (raw >= 1, usr <= raw+1, fractions "
+            "only with usr >= 2).  Generated: exhaustive five-class sequences to length 5 (quick) / 7 for one dimension, "
             "exhaustive {below,inside,above}^2 pairs to length 3 / 4 for two ranged dimensions, exhaustive ranged last dimension to "
             "length 4 / 6, runs around 65533/65535/131070 points, random frames (1-3 dimensions, ranges anywhere, unequal lengths, "
-            "unusable stores, set() again on a used polyline).  CASES LEFT OUT until the patches under docs/ are committed are selected "
+            "unusable stores, set() again on a used polyline), every pair of store lengths 0..3 over {outside, inside}^n for two ranged "
+            "dimensions and 0..5 for plain ones (the longer store first and second, a first store without doubles, a longer store "
+            "behind the three dimensions), D cases with records that fit, end exactly with, or reach behind 1-4 stores.  CASES LEFT OUT until the patches under docs/ are committed are selected "
             "by the constant switches PATCHED_* at the top of this file (a pure function of the case text; see docs/notes_C18.md); "
             "while PATCHED_APPLY_SHORT_PART is False the points of a part with raw = 1 that draws 2 points are not compared in "
             "generated cases (replay files are always compared in full)")
     modelled = ("mptplot/values/linepart_linear.c, linepart_code.c, linepart_join.c; mpt++/linepart.cpp: linepart::array::set (0, < 0, > 0), "
                 "linepart::array::apply (empty array and the merge loop over existing parts, any number of dimensions), set_cut/set_trim; "
                 "mpt++/polyline.cpp: polyline::set, apply_data (with and without part records), the part iterator and part::line/points; "
-                "mpt++/value_store.cpp maxsize (as coded: first store only); the template apply<point<double>,double> of mptplot/values.h and "
+                "mpt++/value_store.cpp maxsize (AS PATCHED by docs/C18_maxsize_all_stores.diff: the longest store of doubles; the code in /repo "
+                "tests the first store only); the template apply<point<double>,double> of mptplot/values.h and "
                 "transform3::apply for linear axes with scale 1 - all transcribed in coq/C18/LinepartModel.v and PolylineModel.v over exact "
                 "rationals; uint16 fields are written mod 2^16, size_t lengths mod 2^64.  The model follows the code AS PATCHED by the seven "
                 "diffs docs/C18_*.diff on the paths the generator keeps disabled until they are committed (merge loop for a further "
                 "dimension after a ranged one / with fewer values, set() on re-used records, polyline::set behind an unusable store or "
-                "without a first store, apply_data without parts for several dimensions, apply<> for a part with raw = 1); on every path "
+                "without a first store, apply_data without parts for several dimensions, apply<> for a part with raw = 1) - these seven are "
+                "committed in /repo - and by the two proposed ones docs/C18_maxsize_all_stores.diff (maxsize advances through the stores) and "
+                "docs/C18_apply_data_remaining.diff (apply_data compares a record with the values that are LEFT of a dimension and clears "
+                "the trim of the copy it cuts short); on every path "
                 "that is run against the unpatched tree patched and unpatched code agree.  Not modelled: binary64 rounding (compared by "
                 "the rule; polyline cases are exact), NaN/infinite inputs, logarithmic axes (transform3::part with TransformLg, apply_log), "
-                "axis offset/scale other than 0/1, the truncation branch of apply_data (part longer than the data: unreachable from "
-                "polyline::set once the parts are consistent), allocation failures")
+                "axis offset/scale other than 0/1, allocation failures")
     trusted = ["harness/c18_linepart.cpp copies every sequence into an exact-size heap block, calls the real functions and prints the "
                "records it reads back from the linepart structs / the linepart::array; for the L/E cases a transform subclass whose part() "
                "calls mpt_linepart_linear with the case's range stands in for layout::graph::transform3; the P/R/A cases use the real "
@@ -850,7 +965,12 @@ class C18(DiffProperty):
                   "fails exactly when nothing is drawn, the point array is point for point the data value resp. the point at the "
                   "decoded fraction of the first/last segment), C18_polyline_clip_on_boundary (such a clipped point lies within 2^-16 "
                   "of the segment length of the range boundary), C18_polyline_iterator (the iterator ends, its lines tile the points "
-                  "in part order, points() never underflows); the "
+                  "in part order, points() never underflows); for ANY list of stores (any number, usable or not, of unequal lengths) "
+                  "C18_polyline_set_any_stores (polyline::set ends, never reads outside a store - merge loops and apply_data - , fails and "
+                  "changes nothing exactly when no store of doubles has a value, else the parts cover exactly as many points as the "
+                  "longest store of doubles has values and there is one point per drawn point) and C18_polyline_short_dimension (no point "
+                  "behind the last value of any store among the three dimensions is drawn); for ANY part records "
+                  "C18_apply_data_any_parts (apply_data never reads behind a store and keeps the number of points); the "
                   "model is tied to the code on every run by differential execution under ASan/UBSan (exhaustive over the 5-class "
                   "alphabet to length 8, random dyadic sequences, runs around 65535 points; polyline::set / apply_data / iterator on "
                   "real value stores with the real transform3, exhaustive to length 5 and random frames)")
@@ -864,17 +984,27 @@ class C18(DiffProperty):
                   "and coverage of a further dimension (C18_further_dimension_covers); the per-point drawing statements are proved for "
                   "one dimension and for a second and third one that have at least as many values (C18_further_dimension_points, "
                   "C18_polyline_two_dimensions, C18_polyline_three_dimensions); only CHECKED (python check_frame against the "
-                  "implementation, model compared token by token) are: a later dimension with fewer values, the fraction of a crossing in "
+                  "implementation, model compared token by token) are: the per-point statements (drawn once / not drawn) below the end of a "
+                  "dimension with fewer values (proved for it: termination, memory safety, coverage, nothing drawn behind its end), the "
+                  "fraction of a crossing in "
                   "two dimensions (largest of the two codes), the points of polyline::set for more than one store, apply_data without "
-                  "part records.  OPEN DEFECTS: the polyline theorems are about the model, which "
-                  "follows the seven proposed patches docs/C18_*.diff where the unpatched code violates the property (stale fractions "
+                  "part records, the VALUES apply_data adds for records that do not fit the stores.  The polyline theorems are about the model, "
+                  "which follows nine patches docs/C18_*.diff where the code as found violates the property; seven are committed in /repo "
+                  "(switches True), TWO ARE OPEN (switches PATCHED_MAXSIZE, PATCHED_APPLY_DATA_REMAINING = False, their cases are left out "
+                  "of the generated run and of the corpus until the patches are committed): maxsize() in mpt++/value_store.cpp never "
+                  "advances through the stores, so polyline::set sizes the parts from the FIRST store only - a longer later store is "
+                  "cut to the first one's length (its further values are never consumed), a first store without doubles makes the call "
+                  "fail although other dimensions have values (replays docs/C18_replay_maxsize_all_stores{,_b}.json); apply_data with "
+                  "part records compares each record with the WHOLE length of a dimension instead of what is left of it and reads "
+                  "behind the store, and the copy it cuts short keeps the trim fraction (replays "
+                  "docs/C18_replay_apply_data_remaining{,_b}.json; not reachable through polyline::set, whose records fit every "
+                  "dimension, but apply_data is a public function with that guard).  The seven committed ones were: (stale fractions "
                   "after set() on a used polyline; wrong/missing trim and fractions on undrawn parts when a second dimension is applied "
                   "after a ranged one; reads behind a shorter dimension; stores behind an unusable one never applied; a call without "
                   "first store redraws the old points at the origin; apply_data without parts loses its count after the first "
                   "dimension; apply<> leaves a 2-point part with raw = 1 at the origin); replays docs/C18_replay_*.json reproduce each "
-                  "as VIOLATION on the unpatched tree; for polyline::set with ONE dimension on a FRESH polyline (what the generator "
-                  "runs unpatched) patched and unpatched code agree except for the last defect, whose points are masked in generated "
-                  "cases until PATCHED_APPLY_SHORT_PART is set.  All 20 theorems are closed under the global context.")
+                  "as VIOLATION on a tree without its patch.  On every path the generator runs while a switch is False patched and "
+                  "unpatched code agree.  All 23 theorems are closed under the global context.")
     technique = "Coq proof (per-part invariant, induction over the driver loop) + differential correspondence check with a stated rounding rule"
     assumptions = ["binary64 division/subtraction are correctly rounded (IEEE-754), no excess precision",
                    "inputs are finite doubles (no NaN/infinity)"]
@@ -906,6 +1036,10 @@ class C18(DiffProperty):
 
     def compare(self, case, it, mt, st):
         return compare_case((case, it, mt, st))
+
+    def corpus(self):
+        # regression cases of a defect whose patch is not committed yet wait behind the same constant switch as the generated ones
+        return [c for c in DiffProperty.corpus(self) if poly_enabled(c)]
 
     # ---- case structure / statistics
     def classify(self, case):
@@ -959,6 +1093,8 @@ class C18(DiffProperty):
                 cl.add("polyline-range-and-plain-dimensions")
             if f["uneq"]:
                 cl.add("polyline-unequal-lengths")
+            if f["maxsize"]:
+                cl.add("polyline-longest-store-not-first")
             if f["skip"] or f["used-nofirst"] or any(not usable(d) for fr in frs for d in fr):
                 cl.add("polyline-unusable-store")
             if max([count_points(d[3]) for fr in frs for d in fr if d[0] == "D"] + [0]) >= 65533:
@@ -967,6 +1103,10 @@ class C18(DiffProperty):
             cl.add("array-set(-1)")
         elif t[0] == "A":
             cl.add("apply_data-without-parts")
+        elif t[0] == "D":
+            cl.add("apply_data-with-parts")
+            if dparts_behind(case):
+                cl.add("apply_data-part-behind-the-data")
         elif t[0] == "W":
             cl.add("set_cut/set_trim")
         return cl
@@ -1068,6 +1208,29 @@ class C18(DiffProperty):
                 for k, d in enumerate(dims):
                     if hd[k] == 2 and d[0] != "N":
                         yield put(dims[:k] + [["N", "N"] + d[2:]] + dims[k + 1:])
+        elif t[0] == "D":
+            k = t.index(":") if ":" in t else len(t)
+            ps, rest = t[1:k], t[k + 1:]
+            dims = [d for d in split_on(rest, "|") if d]
+
+            def putd(ps2, nd):
+                return " ".join(["D"] + ps2 + [":"] + " | ".join(" ".join(d) for d in nd).split())
+            for i in range(len(ps)):
+                yield putd(ps[:i] + ps[i + 1:], dims)
+            if len(dims) > 1:
+                for i in range(len(dims)):
+                    yield putd(ps, dims[:i] + dims[i + 1:])
+            for i, d in enumerate(dims):
+                h = 2 if d[0] not in ("X", "Z", "F") else 1
+                if len(d) > h:
+                    yield putd(ps, dims[:i] + [d[:-1]] + dims[i + 1:])
+                    if "*" in d[-1]:
+                        b, c = d[-1].split("*")
+                        yield putd(ps, dims[:i] + [d[:-1] + ["%s*%d" % (b, max(1, int(c) // 2))]] + dims[i + 1:])
+            for i, x in enumerate(ps):
+                f = x.split(".")
+                if f[2] != "0" or f[3] != "0":
+                    yield putd(ps[:i] + [".".join(f[:2] + ["0", "0"])] + ps[i + 1:], dims)
         elif t[0] == "A":
             n = int(t[1])
             for n2 in (n // 2, n - 1, 65536, 65535):
@@ -1287,6 +1450,60 @@ class C18(DiffProperty):
                 "P 1/0 3/0 2/0 | 1/0 3/0 2/0 | 1/0 3/0 2/0 0/0", "P X | N N 1/0 2/0", "P Z | N N 1/0 2/0",
                 "P 1/0 3/0 0/0 2/0 4/0 & 1/0 3/0 2/0 2/0 2/0", "P 1/0 3/0 0/0 2/0 4/0 & X | 1/0 3/0 2/0 2/0 2/0",
                 "P 1/0 3/0 0/0 2/0 4/0 & Z | 1/0 3/0 2/0 2/0 2/0", "P 1/0 3/0 2/0*70000 & 1/0 3/0 2/0 4/0"]
+        # stores of UNEQUAL length, every pair of lengths, the longer one first and second; a polyline from the second or the
+        # third dimension alone; a store behind the dimensions of the transformation (it counts for the number of points only)
+        two = ["0/0", "2/0"]
+        for la in range(0, 4):
+            for lb in range(0, 4):
+                for wa in itertools.product(two, repeat=la):
+                    for wb in itertools.product(two, repeat=lb):
+                        out.append("P %s | %s" % (" ".join(["1/0", "3/0"] + list(wa)) if la else "Z", " ".join(["1/0", "3/0"] + list(wb)) if lb else "Z"))
+        for la in range(0, 6):
+            for lb in range(0, 6):
+                if la != lb:
+                    a = " ".join("%d/0" % (1 + i) for i in range(la))
+                    b = " ".join("%d/0" % (11 + i) for i in range(lb))
+                    out.append("P %s | %s" % ("N N " + a if la else "Z", "N N " + b if lb else "Z"))
+                    out.append("P %s | %s" % ("0/0 4/0 " + a if la else "X", "12/0 14/0 " + b if lb else "X"))
+                    out.append("P %s | X | %s" % ("N N " + a if la else "F 1/0", "11/0 13/0 " + b if lb else "Z"))
+                    out.append("P N N 7/0 | %s | N N 8/0 9/0 | %s" % ("N N " + a if la else "X", "N N " + b if lb else "X"))
+        for n in (65533, 65534, 65536):
+            out.append("P N N 1/0*3 | 1/0 3/0 2/0*%d 4/0 2/0" % (n - 2))
+            out.append("P 1/0 3/0 2/0*%d 4/0 2/0 | N N 1/0*3" % (n - 2))
+            out.append("P X | 1/0 3/0 2/0*%d 4/0 2/0" % (n - 2))
+        out += ["P X | X | X | N N 1/0 2/0", "P N N 1/0 | N N 2/0 | N N 3/0 | N N 4/0 5/0", "P X | N N 1/0 2/0 & N N 1/0 2/0 3/0 | X",
+                "P N N 1/0 2/0 3/0 & X | 1/0 3/0 0/0 2/0 4/0 2/0", "P Z | Z | N N 1/0", "P F 1/0 2/0 3/0 | N N 1/0 2/0"]
+        for _ in range(150 if quick else 3000):
+            fr = self.poly_frame(rng, "uneq").split(" | ")
+            r = rng.random()
+            if r < 0.3:
+                fr[0] = rng.choice(["X", "Z", "F 1/0 2/0"])
+            elif r < 0.5:
+                fr = (fr + ["N N 1/0", "X"])[:3] + [" ".join(self.poly_dim(rng, rng.choice([1, 3, 9, 45]), False, "grid"))]
+            out.append("P " + " | ".join(fr))
+        # apply_data WITH part records that need not fit the stores (a public function of values.h)
+        out += ["D 3.3.0.0 3.3.0.0 : N N 1/0 2/0 3/0 4/0", "D 3.3.0.0 3.3.0.0 : N N 1/0 2/0 3/0 4/0 5/0 6/0", "D 3.3.0.0 3.3.0.0 : N N 1/0 2/0",
+                "D 3.3.0.32768 : N N 1/0 2/0", "D 2.2.0.0 3.0.0.0 2.2.0.0 : N N 1/0 2/0 3/0 4/0 5/0 6/0", "D 4.1.0.0 2.2.0.0 : N N 1/0 2/0 3/0",
+                "D 2.2.0.0 2.2.0.32768 : N N 1/0 2/0 3/0 | N N 1/0 2/0 3/0 4/0", "D 2.3.0.0 2.2.32768.0 : N N 1/0 2/0 3/0", "D : N N 1/0",
+                "D 2.2.0.0 : X", "D 2.2.0.0 : Z | N N 1/0 2/0", "D 1.2.16384.49152 1.1.0.0 : N N 4/0 8/0",
+                "D 65535.65535.0.0 65535.65535.0.0 : N N 1/0*131070", "D 65535.65535.0.0 65535.65535.0.0 : N N 1/0*65535 2/0*34465",
+                "D 65535.65535.0.0 4.4.0.0 : N N 1/0*65535 2/0*2 | N N 3/0*65539", "D 65535.65535.0.0 65535.65535.0.32768 : N N 1/0*65534"]
+        for _ in range(400 if quick else 8000):
+            ps = []
+            for _k in range(rng.choice([1, 1, 2, 3, 4, 6])):
+                raw = rng.choice([1, 1, 2, 3, 4, 6])
+                usr = rng.choice([raw, raw, raw, 0, raw + 1, rng.randrange(0, raw + 2)])
+                cut = rng.choice([0, 0, 0, 32768, 1, 65535, 16384]) if usr >= 2 else 0
+                trim = rng.choice([0, 0, 0, 32768, 1, 65535, 49152]) if usr >= 2 else 0
+                ps.append("%d.%d.%d.%d" % (raw, usr, cut, trim))
+            tot = sum(int(x.split(".")[0]) for x in ps)
+            dims = []
+            for _k in range(rng.choice([1, 1, 2, 3, 4])):
+                m = rng.choice([tot, tot, tot + 1, tot + 2, max(1, tot - 1), max(1, tot - 2), max(1, tot // 2), 1, rng.randrange(1, tot + 4)])
+                dims.append(" ".join(["N", "N"] + [self.rand_value(rng, "grid") for _v in range(m)]))
+            if rng.random() < 0.15:
+                dims.insert(rng.randrange(len(dims) + 1), rng.choice(["X", "Z", "F 1/0 2/0"]))
+            out.append("D %s : %s" % (" ".join(ps), " | ".join(dims)))
         # linepart::array::set(-1) after a set
         for n in (1, 2, 65532, 65533, 65534, 131066, 131067):
             out.append("R N N 1/0*%d" % n)
